@@ -37,8 +37,8 @@ __CPROVER_ensures(!READ_OK(in, 3) || ghost_mkey != KEYID(TOK(in, 0)) ==> MAP.pre
 //@ function BarnettSmartVTMF_dlog__KeyGenerationProtocol_Finalize
 //@ contract
 __CPROVER_requires(__CPROVER_is_fresh(self, sizeof(*self)) && __CPROVER_is_fresh(self->fpowm_table_h, TMCG_MAX_FPOWM_T * sizeof(mpz_t)))
-__CPROVER_requires(P != 0)
-__CPROVER_assigns(__CPROVER_object_whole(self->fpowm_table_h))
+__CPROVER_requires(P != 0 && __tmcg_thrown == 0)
+__CPROVER_assigns(__CPROVER_object_whole(self->fpowm_table_h), __tmcg_thrown)
 /* C08: the fixed-base table used for masking is rebuilt for the final common key */
-__CPROVER_ensures(V(self->fpowm_table_h[0]) == H)
+__CPROVER_ensures(__tmcg_thrown == 0 && V(self->fpowm_table_h[0]) == H)
 //@ end
